@@ -202,7 +202,7 @@ type c04Case struct {
 	Ops   []c02Op  `json:"ops"`
 }
 
-var c04Kinds = []string{"lookup", "lookup", "create", "mkdir", "symlink", "remove", "rmdir", "rename", "readdir", "readdirplus", "readdirplus", "getattr", "getattr", "readlink",
+var c04Kinds = []string{"lookup", "lookup", "create", "create", "mkdir", "symlink", "remove", "rmdir", "rename", "readdir", "readdirplus", "readdirplus", "getattr", "getattr", "readlink",
 	"setattr", "setattr", "setattr", "write", "read", "access"}
 
 var c04Modes = []uint32{0, 0644, 0755, 0600, 0777, 04755, 02755, 01777, 07777, 040755, 020644, 010644, 0x4000 | 0700, 0x08000000, 0x08000000 | 0644, 0x80000000 | 0755, 0x00800000 | 0644, 0xFFFF7FFF, 0x7FFFFFFF, 1 << 9, 1 << 12}
@@ -234,6 +234,12 @@ func genC04(t *rapid.T) c04Case {
 			if rapid.IntRange(0, 3).Draw(t, "ondir") == 0 {
 				op.Name = ""
 			}
+		case "create":
+			// CREATE with explicit attributes (size, mode) on new and existing names
+			op.SetSize = rapid.IntRange(0, 2).Draw(t, "csetsize") == 0
+			op.Size = uint64(rapid.IntRange(0, 40).Draw(t, "csize"))
+			op.SetMode = rapid.IntRange(0, 2).Draw(t, "csetmode") == 0
+			op.Mode = rapid.SampledFrom([]uint32{0600, 0644, 0, 0755}).Draw(t, "cmode")
 		case "write":
 			op.Off = uint64(rapid.IntRange(0, 30).Draw(t, "off"))
 			op.Len = rapid.IntRange(0, 20).Draw(t, "len")
